@@ -7,6 +7,10 @@ VERIF = os.path.dirname(os.path.dirname(os.path.abspath(__file__)))
 CHECKS = {
  "C01": ("proof of byte-exact round trip for every well-formed CHK (Lean theorem c01_roundtrip over the chunk-loop model and the layouts regenerated from the transcoder source; instantiation obligations by decide +kernel); model tied to the code by the layout translator and an rt/dec correspondence run",
          "§5 C01", "Lean 4 proof (induction over chunks) + ast translator of struct layouts + differential correspondence"),
+ "C04": ("proof over the encoder model, for every authored entry and context: position i of the record written for an authored condition/action holds the encoded flags, the number its codec computes for the argument the transcoder table assigns to field i, or zero (c04_entry_fields); the table equals the hand-transcribed specification table (C05); a written string id resolves to exactly the authored text, a unit-property id to a stored equal set, a location id to that location's slot; authored triggers are emitted in order after the existing ones with exactly the authored players; hit points are floor(256*value); partial: composition with the byte layer (C01/C06) and the rebuilders is validated by byte-comparing the `edit` model with the real editors + RichChkIo on generated histories and by the independent reader (every authored value in its specification field, reload equality)",
+         "§5 C04", "Lean 4 proof (keyed-lookup induction over the transcoder table rows) + byte-exact differential correspondence of edit histories + independent reader oracle"),
+ "C07": ("proof over the editor and rebuilder models: adding triggers leaves every other section unchanged and the old triggers a prefix; upserting a unit leaves every other unit's setting unchanged in order; added WAV entries take free slots after the existing entries; section replacement is in place; the location and unit-property rebuilds keep the existing table as a prefix (with C09: occupied slots are never handed out; C08: existing string ids keep their text); pass-through sections stay in place (C10); partial: the composition over whole histories with save+reload is validated by byte-comparing the `edit` model with the real code and by the independent reader's slot-by-slot comparison against the unedited save",
+         "§5 C07", "Lean 4 proof (prefix / filter lemmas over the editor models) + byte-exact differential correspondence of edit histories + independent slot-by-slot oracle"),
  "C05": ("proof by complete enumeration (decide +kernel) that each of the 51+22 transcoder rows regenerated from the source agrees with the hand-transcribed specification table: own number and name, every argument read from and written to exactly its specification field through the same codec, zero elsewhere, no shared fields; plus the generic lemma that the table-driven record holds each argument in its field; tied to the real transcoders by a sentinel probe",
          "§5 C05", "Lean 4 proof over the generated transcoder table (finite domain = the registry) + ast translator + sentinel-probe correspondence"),
  "C06": ("proof that every decoded field is the little-endian integer at the offset obtained from the specification's layout, in both directions; the layouts read off decode and _encode are proved equal to the hand-transcribed spec table (decide +kernel), field names included",
